@@ -74,3 +74,14 @@ pub fn no_real_token(text: &str) -> bool {
     }
     true
 }
+
+#[allow(dead_code)]
+pub fn too_deep(text: &str) -> bool {
+    // The targets that walk the tree recursively (fold, visitor, unparse, locators, drop) run on libFuzzer's stack with
+    // sanitizer-sized frames: a few thousand nested prefix operators or brackets overflow it, which is a limit of the
+    // harness, not a verdict on the library (the LR parser itself is iterative; C03 feeds it such inputs). Over-estimate
+    // the nesting an input can reach and leave those inputs to C03's targets.
+    let openers = text.bytes().filter(|b| matches!(b, b'(' | b'[' | b'{' | b'-' | b'+' | b'~' | b'*')).count();
+    let words = text.matches("not").count() + text.matches("await").count() + text.matches("lambda").count() + text.matches("if ").count() + text.matches("else").count();
+    openers + words > 200
+}
